@@ -4,6 +4,15 @@
      pkg/kube_events_manager/types/types.go    ObjectAndFilterResult.Map / MarshalJSON / RemoveFullObject
      pkg/hook/binding_context/binding_context.go  MapV1, MapV0, Map, ConvertBindingContextList, Json
 
+   and (second half of the file) of the path on which the operator itself builds the contexts:
+
+     pkg/kube_events_manager/resource_informer.go  loadExistedObjects, handleWatchEvent, shouldFireEvent,
+                                                   getCachedObjects
+     pkg/kube_events_manager/monitor.go            Snapshot (sorted by ByNamespaceAndName, types.go)
+     pkg/hook/controller/kubernetes_bindings_controller.go  ConvertKubeEventToBindingContext, SnapshotsFor
+     pkg/hook/controller/hook_controller.go        UpdateSnapshots
+     pkg/hook/hook.go                              Run: UpdateSnapshots -> ConvertBindingContextList -> Json
+
    The model follows the code AFTER the repair of F3 (Map() accepts the decoded, non-string
    filter result that applyFilter stores) and keeps everything else as it is, including
    the merge of F8 (applyFilter/jq.ApplyFilter keep only object-valued jq outputs, merged
@@ -250,3 +259,209 @@ Fixpoint render_all (v : version) (cs : list ctx) : option (list json) :=
 
 Definition render_list (v : version) (cs : list ctx) : option json :=
   match render_all v cs with Some js => Some (JArr js) | None => None end.
+
+(* ====================================================================================
+   The informer path: from the objects of the cluster and the watch events to the files.
+
+   One kubernetes binding = one monitor = (in this model) one resourceInformer.  The jq
+   oracle's answer travels with every object ([w_outs]); jq errors are not modelled (C08).
+   md5 collisions are not modelled: "checksums are equal" = "the checksummed values are
+   equal" (json.Marshal sorts the keys of maps).
+   ==================================================================================== *)
+
+(* Go maps keyed by strings; the order of the list is immaterial (readers sort) *)
+Definition aget {A} (k : bytes) (m : list (bytes * A)) : option A :=
+  match find (fun p => bytes_eqb k (fst p)) m with Some p => Some (snd p) | None => None end.
+Definition adel {A} (k : bytes) (m : list (bytes * A)) : list (bytes * A) :=
+  filter (fun p => negb (bytes_eqb k (fst p))) m.
+Definition aset {A} (k : bytes) (v : A) (m : list (bytes * A)) : list (bytes * A) := (k, v) :: adel k m.
+
+(* a kubernetes object as the informer sees it *)
+Record wobj := mkWobj {
+  w_ns : bytes;                (* obj.GetNamespace() *)
+  w_name : bytes;              (* obj.GetName() *)
+  w_id : bytes;                (* resourceId(obj) = "namespace/kind/name" *)
+  w_obj : json;
+  w_outs : list json }.        (* the output stream of jq JQFILTER on w_obj (meaningless without a jqFilter) *)
+
+(* the binding and its monitor: OnKubernetesEventConfig + MonitorConfig *)
+Record binding := mkBinding {
+  b_name : bytes;              (* BindingName *)
+  b_jq : bool;                 (* Monitor.JqFilter <> "" *)
+  b_keep : bool;               (* Monitor.KeepFullObjectsInMemory *)
+  b_types : list wevent;       (* Monitor.EventTypes *)
+  b_incl : list bytes;         (* IncludeSnapshotsFrom (after the merge with the group's bindings) *)
+  b_group : bytes;             (* Group *)
+  b_sync : bool }.             (* ExecuteHookOnSynchronization *)
+
+(* ObjectAndFilterResult with the metadata the informer and the sorter use *)
+Record entry := mkEntry {
+  en_ns : bytes;
+  en_name : bytes;
+  en_id : bytes;               (* Metadata.ResourceId *)
+  en_sum : json;               (* the value whose serialisation is checksummed: Metadata.Checksum *)
+  en_ofr : ofr }.
+
+(* filter.go applyFilter (FilterFunc = nil, no jq error): Object is always set here *)
+Definition apply_filter_go (jq : bool) (w : wobj) : entry :=
+  if jq then
+    let filtered := JObj (glue (w_outs w)) in
+    mkEntry (w_ns w) (w_name w) (w_id w) filtered (mkOfr true false (Some (w_obj w)) (FRVal filtered))
+  else
+    mkEntry (w_ns w) (w_name w) (w_id w) (w_obj w) (mkOfr false false (Some (w_obj w)) FRNil).
+
+(* types.go RemoveFullObject *)
+Definition remove_full_object (e : entry) : entry :=
+  mkEntry (en_ns e) (en_name e) (en_id e) (en_sum e)
+          (mkOfr (o_jq (en_ofr e)) true None (o_fres (en_ofr e))).
+
+Definition cache := list (bytes * entry).      (* cachedObjects: ResourceId -> *ObjectAndFilterResult *)
+
+(* resource_informer.go loadExistedObjects: the initial list *)
+Definition load_existing (b : binding) (objs : list wobj) (c : cache) : cache :=
+  fold_left (fun c w =>
+               let e := apply_filter_go (b_jq b) w in
+               let e := if b_keep b then e else remove_full_object e in     (* if !KeepFullObjectsInMemory *)
+               aset (en_id e) e c) objs c.
+
+Definition wev_eqb (a b : wevent) : bool :=
+  match a, b with
+  | WNone, WNone | WAdded, WAdded | WModified, WModified | WDeleted, WDeleted => true
+  | _, _ => false
+  end.
+
+(* shouldFireEvent *)
+Definition should_fire (b : binding) (t : wevent) : bool := existsb (wev_eqb t) (b_types b).
+
+(* KubeEvent; Objects with their ResourceId *)
+Record kube_event := mkKev { ke_type : ktype; ke_wevs : list wevent; ke_objs : list (bytes * ofr) }.
+
+(* resource_informer.go handleWatchEvent (events enabled, informer not stopped):
+     objFilterRes := applyFilter(...)
+     if !KeepFullObjectsInMemory { objFilterRes.RemoveFullObject() }
+     Added/Modified: skipEvent := in cache with an equal checksum; cache[id] = objFilterRes; if skipEvent return
+     Deleted:        delete(cache, id)
+     if shouldFireEvent(eventType) { KubeEvent{Event, [eventType], [*objFilterRes]} } *)
+Definition handle (b : binding) (c : cache) (t : wevent) (w : wobj) : cache * option kube_event :=
+  let e := apply_filter_go (b_jq b) w in
+  let e := if b_keep b then e else remove_full_object e in
+  let fire := if should_fire b t then Some (mkKev KEvent [t] [(en_id e, en_ofr e)]) else None in
+  match t with
+  | WAdded | WModified =>
+      let skip := match aget (en_id e) c with
+                  | Some old => json_eqb (en_sum old) (en_sum e)
+                  | None => false
+                  end in
+      (aset (en_id e) e c, if skip then None else fire)
+  | WDeleted => (adel (en_id e) c, fire)
+  | WNone => (c, None)
+  end.
+
+(* types.go ByNamespaceAndName.Less *)
+Definition entry_less (p q : entry) : bool :=
+  match o_object (en_ofr p), o_object (en_ofr q) with
+  | Some _, Some _ =>
+      if bytes_ltb (en_ns p) (en_ns q) then true
+      else if bytes_ltb (en_ns q) (en_ns p) then false
+      else bytes_ltb (en_name p) (en_name q)
+  | _, _ => bytes_ltb (en_id p) (en_id q)
+  end.
+
+Fixpoint insert_by {A} (lt : A -> A -> bool) (x : A) (l : list A) : list A :=
+  match l with
+  | [] => [x]
+  | y :: r => if lt x y then x :: y :: r else y :: insert_by lt x r
+  end.
+Definition sort_by {A} (lt : A -> A -> bool) (l : list A) : list A := fold_right (insert_by lt) [] l.
+
+(* monitor.Snapshot(): getCachedObjects of the informer, sorted *)
+Definition snapshot (c : cache) : list entry := sort_by entry_less (map snd c).
+
+(* kubernetes_bindings_controller.go ConvertKubeEventToBindingContext *)
+Definition convert_kube_event (b : binding) (ev : kube_event) : list ctx :=
+  let mk kt wev := mkCtx BKube (b_jq b) (b_incl b) false (b_group b) (b_name b) kt wev
+                         (map (fun p => Raw (snd p)) (ke_objs ev)) [] None None [] [] in
+  match ke_type ev with
+  | KSync => [mk KSync WNone]
+  | KEvent => map (mk KEvent) (ke_wevs ev)
+  | KEmpty => []
+  end.
+
+(* SnapshotsFor: nil for a name that is not a kubernetes binding of the hook *)
+Definition snapshots_for (b : binding) (c : cache) (name : bytes) : option (list entry) :=
+  if bytes_eqb name (b_name b) then Some (snapshot c) else None.
+
+Definition snapshot_items (b : binding) (c : cache) (name : bytes) : list item :=
+  match snapshots_for b c name with
+  | Some es => map (fun e => Raw (en_ofr e)) es
+  | None => []
+  end.
+Definition snapshot_ids (b : binding) (c : cache) (name : bytes) : list bytes :=
+  match snapshots_for b c name with
+  | Some es => map en_id es
+  | None => []
+  end.
+
+(* getIncludeSnapshotsFrom(OnKubernetesEvent, bindingName) *)
+Definition include_from (b : binding) (name : bytes) : list bytes :=
+  if bytes_eqb name (b_name b) then b_incl b else [].
+
+(* hook_controller.go UpdateSnapshots, one context: a fresh `snapshots` map with one key per
+   included name, and fresh `objects` for a Synchronization *)
+Definition update_snapshots (b : binding) (c : cache) (x : ctx) : ctx :=
+  mkCtx (c_btype x) (c_jq x) (c_incl x) (c_incl_all x) (c_group x) (c_binding x) (c_type x) (c_wev x)
+        (match c_btype x, c_type x with
+         | BKube, KSync => snapshot_items b c (c_binding x)
+         | _, _ => c_objects x
+         end)
+        (map (fun n => (n, snapshot_items b c n)) (include_from b (c_binding x)))
+        (c_areview x) (c_creview x) (c_from x) (c_to x).
+
+(* one file and what the driver records next to it: the step, the ResourceIds behind the
+   first context's Objects and Snapshots (names in the order of the rendered JSON object) *)
+Record fobs := mkFobs {
+  fo_step : N;
+  fo_ids : list bytes;
+  fo_snaps : list (bytes * list bytes);
+  fo_out : option json }.
+
+(* sorted, duplicate-free: the keys of the `snapshots` JSON object *)
+Definition canon_names (l : list bytes) : list bytes :=
+  map fst (fold_left (fun acc n => obj_set n JNull acc) l []).
+
+(* hook.go Run on the contexts of one BindingExecutionInfo *)
+Definition file_of (v : version) (b : binding) (c : cache) (step : N) (ev : kube_event) : fobs :=
+  let fresh := map (update_snapshots b c) (convert_kube_event b ev) in
+  mkFobs step
+         (match ke_type ev with KSync => snapshot_ids b c (b_name b) | _ => map fst (ke_objs ev) end)
+         (map (fun n => (n, snapshot_ids b c n)) (canon_names (include_from b (b_name b))))
+         (render_list v fresh).
+
+Record flow := mkFlow {
+  f_version : version;
+  f_bind : binding;
+  f_initial : list wobj;                 (* the cluster when the monitor is created *)
+  f_ops : list (wevent * wobj) }.        (* the watch events afterwards, in delivery order *)
+
+Fixpoint run_ops (v : version) (b : binding) (c : cache) (step : N) (ops : list (wevent * wobj)) : list fobs :=
+  match ops with
+  | [] => []
+  | (t, w) :: r =>
+      let (c', ev) := handle b c t w in
+      (match ev with Some ev => [file_of v b c' step ev] | None => [] end)
+        ++ run_ops v b c' (N.succ step) r
+  end.
+
+(* EnableKubernetesBindings: the monitor is created over the existing objects and a
+   Synchronization execution is planned (run when ExecuteHookOnSynchronization); then the
+   events are unlocked and every fired KubeEvent becomes one execution.  The hook runs
+   (and reads the snapshots) before the next watch event arrives.  The shared informer's
+   replay of the existing objects through handleWatchEvent (Added with an unchanged
+   checksum: no event, the cache entry is replaced by an equal one) is left out: the driver
+   renders the Synchronization file on both sides of that replay and reports a second file
+   when the two differ. *)
+Definition run_flow (f : flow) : list fobs :=
+  let b := f_bind f in
+  let c0 := load_existing b (f_initial f) [] in
+  (if b_sync b then [file_of (f_version f) b c0 0 (mkKev KSync [] [])] else [])
+    ++ run_ops (f_version f) b c0 1 (f_ops f).
